@@ -816,7 +816,44 @@ def enum_validity_aggregate(tier):
         yield {'test': idx, 'label': label, 'lg': 22, 'K': 128}
 
 
+# ---------------------------------------------------------------- (a') random-walk tests over many seeds
+
+def run_validity_walk(desc):
+  """TestBitString restricted to RandomWalk on many seeds of a good generator (about 1 s per seed).
+
+  The excursion sub-tests only apply when the walk has enough cycles; walks with few zero crossings
+  (a few percent of all seeds) are the inputs on which a wrong applicability threshold shows as tiny
+  p-values, so a few hundred seeds are needed - the full suite is too slow for that."""
+  gen, lg = desc['gen'], desc['lg']
+  n = 1 << lg
+  low = 0
+  for k in range(desc['k0'], desc['k0'] + desc['count']):
+    bits = _bits(gen, n, _seed(gen, k, 'c13walk%d' % lg))
+    # number of returns to zero of the +-1 walk, computed independently (popcount of prefixes)
+    ret, structs = _with_captured(
+        lambda: libcall(rts.TestBitString, bits, n, test_prefix='RandomWalk', log_level=0))
+    _check_pvalue_range(structs)
+    failed = ['%s/%s p=%r' % (ts.test_name, name, ts.combined_p_values[name])
+              for ts in structs for name, st_ in ts.state.items() if st_ == rts.State.FAILED]
+    nsub = sum(len(ts.p_values) for ts in structs)
+    if nsub <= 2:
+      low += 1        # excursion tests not applicable for this seed (fewer than 500 cycles)
+    if failed or ret is not False:
+      raise Violation('validity:randomwalk-fails-good-generator', gen=gen, n=n, k=k, failed=failed[:4],
+                      returned=repr(ret), subtests=nsub)
+  return {'nt': True, 'cls': ['validity-walk:%s@2^%d' % (gen, lg)] +
+          (['validity-walk: some seeds below the excursion threshold'] if low else []),
+          'seeds': desc['count'], 'seeds_without_excursion_tests': low}
+
+
+def enum_validity_walk(tier):
+  per, chunks = (40, 32) if tier == 'quick' else (100, 96)
+  for c in range(chunks):
+    yield {'gen': GOOD_GENS[c % 3], 'lg': 20, 'k0': 100000 + c * per, 'count': per}
+
+
 ARMS = [
+    Arm('validity_randomwalk', run_validity_walk, enumerate=enum_validity_walk, weight=3.0, budget=(300, 2400)),
     Arm('validity_full', run_validity_full, enumerate=enum_validity_full, weight=9.0,
         budget=(900, 7200),
         doc='full suite on shake128/pcg64/philox through TestBitString / TestSource: no failure'),
